@@ -211,8 +211,18 @@ func rulesC10(c *Ctx) {
 // ruleFullPointCompare: crypto.verify returns a full-point equality of C and k*Y.
 func (c *Ctx) ruleFullPointCompare(rule string) {
 	R := c.R
-	f := c.fn(rule, "crypto.verify")
+	// the comparison sits in the unexported helper of the reference tree or, when that was inlined, in the
+	// exported verifier itself (whose early exit on a hash-to-curve failure answers false)
+	f := c.P.Func("crypto.verify")
+	inlined := false
 	if f == nil {
+		inlined = true
+		if f = c.fn(rule, fnVerify); f == nil {
+			return
+		}
+	}
+	if len(f.Params) < 3 {
+		R.Unresolved(rule, c.P.FuncKey(f), "expected (Y or secret, k, C) parameters")
 		return
 	}
 	o := c.P.OriginsOf(f)
@@ -220,6 +230,9 @@ func (c *Ctx) ruleFullPointCompare(rule string) {
 	cParam := "P:" + f.Params[2].Name()
 	for _, r := range Returns(f) {
 		e := o.Of(r.Results[0])
+		if inlined && isConst(e, "false") {
+			continue
+		}
 		ok := false
 		isProduct := func(x *Ex) bool {
 			return x != nil && strings.Contains(x.String(), "NewPublicKey(") || (x != nil && x.K == "call" && strings.HasSuffix(x.S, "secp256k1.NewPublicKey"))
